@@ -573,10 +573,28 @@ def ex_softttl(case, obl="softttl"):
         if order is not None and (sorted(order) != sorted(sc.get_cached_keys())):
             add(f"{P}/{obl}/lru-keys-diverge", f"{where}: LRU list {order} vs cached {sorted(sc.get_cached_keys())}")
 
+    def drive_get(rec):
+        """drive sc.get() and note (from the public stats counter, read right after the synchronous first step)
+        whether this read joined an in-flight refresh"""
+        gen = sc.get(rec.key)
+        before = sc.stats.coalesced_requests
+        try:
+            y = next(gen)
+        except StopIteration as e:
+            return e.value
+        if sc.stats.coalesced_requests > before:
+            rec.extra = "coalesced"
+        while True:
+            sent = yield y
+            try:
+                y = gen.send(sent)
+            except StopIteration as e:
+                return e.value
+
     def run_op(rec):
         op, k = rec.op, rec.key
         if op == "get":
-            return sc.get(k)
+            return drive_get(rec)
         if op == "put":
             rec.val = f"{rec.w}.{rec.i}"
             return sc.put(k, rec.val)
@@ -620,6 +638,9 @@ def ex_softttl(case, obl="softttl"):
                 out.append(v)
         return out
 
+    if os.environ.get("VFW_DEBUG"):
+        print("soft", soft, "hard", hard, "rl/wl/cl", rl, wl, cl, "cap", cap, "\n " + "\n ".join(map(repr, log)),
+              "\n hist", {k: [(t / TICK if t > NEG_INF else "-inf", v) for t, v in h] for k, h in hist.items()}, sc.stats)
     zones = set()
     for g in log:
         if g.op != "get" or not g.done():
@@ -631,15 +652,16 @@ def ex_softttl(case, obl="softttl"):
             dur = g.end - g.start
             zones.add("fast" if dur <= cl * TICK and rl > cl else "slow")
             continue
+        path = "coalesced-read/" if g.extra == "coalesced" else ""
         if g.res in values_in(g.key, own, g.end):
-            add(f"{P}/{obl}/served-beyond-hard-ttl",
+            add(f"{P}/{obl}/{path}served-beyond-hard-ttl",
                 f"{g!r}: value was last in the backing store more than hard_ttl={hard} ticks before the read began "
                 f"(history {[(t / TICK if t > NEG_INF else '-inf', v) for t, v in hist[g.key]]}, soft {soft})")
         elif g.res in values_in(g.key, NEG_INF, g.end):
-            add(f"{P}/{obl}/stale-after-own-write",
+            add(f"{P}/{obl}/{path}stale-after-own-write",
                 f"{g!r}: older than the put through the cache that completed at {own / TICK:g}")
         else:
-            add(f"{P}/{obl}/read-of-unwritten-value", f"{g!r}: the backing store never held this value for the key")
+            add(f"{P}/{obl}/{path}read-of-unwritten-value", f"{g!r}: the backing store never held this value for the key")
     if any(not o.done() for o in log):
         add(f"{P}/{obl}/operation-never-completed", f"{[o for o in log if not o.done()][:3]}")
     s = sc.stats
